@@ -101,7 +101,7 @@ func (c04) Gen(seed uint64, tier string) Case {
 				call.Kind = "modify"
 			case 2:
 				call.Kind = "addfin"
-				call.Fin = []string{"f1", "f2"}[r.Intn(2)]
+				call.Fin = []string{"f1", "f2", "f1,f2", "f2,f3", "f1,f3"}[r.Pick([]int{3, 3, 1, 1, 1})]
 			case 3:
 				call.Kind = "remfin"
 				call.Fin = []string{"f1", "f2"}[r.Intn(2)]
@@ -113,7 +113,7 @@ func (c04) Gen(seed uint64, tier string) Case {
 				call.Kind = "create"
 			}
 			if call.Kind == "uwc" || call.Kind == "modify" {
-				call.Mut = []string{"token", "label", "noop", "fail"}[r.Pick([]int{8, 2, 1, 1})]
+				call.Mut = []string{"token", "label", "noop", "fail", "shared", "fail-conflict"}[r.Pick([]int{8, 2, 1, 1, 3, 1})]
 			}
 			if r.Bool(0.15) {
 				call.SleepMs = 1 + r.Intn(1000)
@@ -182,6 +182,16 @@ func (c04) Shrink(cs Case) []Case {
 
 var errMutator = errors.New("mutator failed on purpose")
 
+// errMutatorConflict is a mutator failure that satisfies state.IsConflictError (as an error propagated from a nested
+// Create that found the resource already there would): the helpers must hand it back, not retry on it.
+type errMutatorConflict struct{ ptr resource.Pointer }
+
+func (e errMutatorConflict) Error() string {
+	return "mutator failed on purpose with a conflict-class error"
+}
+func (e errMutatorConflict) ConflictError()                {}
+func (e errMutatorConflict) GetResource() resource.Pointer { return e.ptr }
+
 type rmwRec struct {
 	Task         string
 	Call         RMWCall
@@ -215,8 +225,12 @@ func mutator(call RMWCall, caller string, n *int) func(resource.Resource) error 
 			sp.Tokens = append(sp.Tokens, call.Val)
 		case "label":
 			r.Metadata().Labels().Set("l-"+caller, call.Val)
+		case "shared":
+			r.Metadata().Labels().Set("shared", "1") // the same idempotent change from every caller
 		case "fail":
 			return errMutator
+		case "fail-conflict":
+			return errMutatorConflict{ptr: r.Metadata()}
 		}
 		return nil
 	}
@@ -271,9 +285,9 @@ func execRMW(ctx context.Context, st state.State, call RMWCall, caller string, r
 		}
 	case "addfin":
 		if call.API == "owned" {
-			rec.Err = owned.New(st, call.Owner).AddFinalizer(ctx, ptr, call.Fin)
+			rec.Err = owned.New(st, call.Owner).AddFinalizer(ctx, ptr, strings.Split(call.Fin, ",")...)
 		} else {
-			rec.Err = st.AddFinalizer(ctx, ptr, call.Fin)
+			rec.Err = st.AddFinalizer(ctx, ptr, strings.Split(call.Fin, ",")...)
 		}
 	case "remfin":
 		if call.API == "owned" {
@@ -418,6 +432,13 @@ func checkRMW(prop string, rec *rmwRec, log []Commit, out *Outcome) {
 			if call.Mut != "fail" {
 				fail("error-class", "bad-error", "unexpected mutator error")
 			}
+		case errors.As(rec.Err, &errMutatorConflict{}):
+			if call.Mut != "fail-conflict" {
+				fail("error-class", "bad-error", "unexpected mutator error")
+			}
+			if rec.MutatorCalls != 1 {
+				fail("mutator-error-retried", "mutator-error-retried", "the mutator failed (with an error of the conflict class) and was invoked %d times: a mutator's own error must be handed back, not retried", rec.MutatorCalls)
+			}
 		case cl.NotFound:
 			if !exists(func(s resState) bool { return !s.Exists }) {
 				fail("error-class", "spurious-notfound", "not-found although the resource existed throughout the call")
@@ -450,7 +471,7 @@ func checkRMW(prop string, rec *rmwRec, log []Commit, out *Outcome) {
 		return
 	}
 	// success
-	if call.Mut == "fail" {
+	if call.Mut == "fail" || call.Mut == "fail-conflict" {
 		fail("mutator-error-swallowed", "fail-success", "the mutator failed but the call reported success")
 		return
 	}
@@ -464,8 +485,13 @@ func checkRMW(prop string, rec *rmwRec, log []Commit, out *Outcome) {
 		switch call.Kind {
 		case "uwc", "modify":
 			ok = call.Mut == "noop" && exists(func(s resState) bool { return s.Exists && phaseOK(call, s.Snap.Phase) })
+			if call.Mut == "shared" {
+				ok = exists(func(s resState) bool {
+					return s.Exists && phaseOK(call, s.Snap.Phase) && strings.Contains(s.Snap.Labels, "shared=1;")
+				})
+			}
 		case "addfin":
-			ok = exists(func(s resState) bool { return s.Exists && hasFin(s.Snap.Fins, call.Fin) })
+			ok = exists(func(s resState) bool { return s.Exists && hasAllFins(s.Snap.Fins, call.Fin) })
 		case "remfin":
 			ok = exists(func(s resState) bool { return s.Exists && !hasFin(s.Snap.Fins, call.Fin) })
 		case "teardown":
@@ -567,8 +593,20 @@ func mutationDiff(call RMWCall, rec *rmwRec, base, cm Snap) string {
 		}
 	case call.Kind == "addfin":
 		d = sameExcept(base, cm, "fins")
-		if hasFin(base.Fins, call.Fin) || !hasFin(cm.Fins, call.Fin) || len(strings.Split(cm.Fins, ",")) != len(strings.Split(strings.Trim(base.Fins+","+call.Fin, ","), ",")) {
-			d += fmt.Sprintf("; fins [%s] -> [%s]", base.Fins, cm.Fins)
+		union := map[string]bool{}
+		for _, f := range strings.Split(base.Fins+","+call.Fin, ",") {
+			if f != "" {
+				union[f] = true
+			}
+		}
+		got := 0
+		for _, f := range strings.Split(cm.Fins, ",") {
+			if f != "" {
+				got++
+			}
+		}
+		if hasAllFins(base.Fins, call.Fin) || !hasAllFins(cm.Fins, call.Fin) || got != len(union) {
+			d += fmt.Sprintf("; fins [%s] + [%s] -> [%s]", base.Fins, call.Fin, cm.Fins)
 		}
 	case call.Kind == "remfin":
 		d = sameExcept(base, cm, "fins")
@@ -586,10 +624,25 @@ func mutationDiff(call RMWCall, rec *rmwRec, base, cm Snap) string {
 		if !strings.Contains(cm.Labels, "l-"+rec.Task+"="+call.Val+";") {
 			d += "; label not set"
 		}
+	case call.Mut == "shared":
+		d = sameExcept(base, cm, "labels")
+		if strings.Contains(base.Labels, "shared=1;") || !strings.Contains(cm.Labels, "shared=1;") {
+			d += fmt.Sprintf("; labels [%s] -> [%s]", base.Labels, cm.Labels)
+		}
 	case call.Mut == "noop":
 		d = "no-op mutator produced a commit"
 	}
 	return strings.TrimPrefix(d, "; ")
+}
+
+// hasAllFins tells whether every finalizer of the comma-separated list want is in the rendered list fins.
+func hasAllFins(fins, want string) bool {
+	for _, f := range strings.Split(want, ",") {
+		if f != "" && !hasFin(fins, f) {
+			return false
+		}
+	}
+	return true
 }
 
 func checkReady(prop string, rec *rmwRec, window []resState, fail func(oracle, sig, format string, args ...any)) {
@@ -670,7 +723,8 @@ func (c04) Run(t *testing.T, cs Case, trace bool) *Outcome {
 			})
 		}
 		if r := s.Settle(400000); r != simrt.Quiescent {
-			out.HarnessErr = fmt.Sprintf("C04 run did not become quiescent: %v live=%v", r, s.Live())
+			// nothing in this world waits for time: 400 000 scheduling steps without going quiet is a helper spinning
+			out.violate("C04/termination", "livelock", "after 400000 scheduling steps the helper calls have not finished (a conflict-retrying helper keeps retrying): %v; live: %v", r, s.Live())
 			return
 		}
 		// callers waiting for a commit trigger that never came are harness waits, not blocked helper calls: release them
